@@ -664,7 +664,21 @@ def _is_empty(ev, args, depth):
     return _len(ev, args, depth) == 0
 
 
+def _wrapping_op(op, ty):
+    def f(ev, args, depth):
+        a, b = deref(args[0]), deref(args[1])
+        av = a.fields[0] if isinstance(a, Adt) else a
+        bv = b.fields[0] if isinstance(b, Adt) else b
+        r = wrap({"add": av + bv, "sub": av - bv, "mul": av * bv}[op], ty)
+        return Adt("std::num::Wrapping", "Wrapping", (r,))
+    return f
+
+
 STD_MODELS = {
+    "<std::num::Wrapping<u8> as std::ops::Sub>::sub": _wrapping_op("sub", "u8"),
+    "<std::num::Wrapping<u8> as std::ops::Add>::add": _wrapping_op("add", "u8"),
+    "<std::num::Wrapping<i32> as std::ops::Sub>::sub": _wrapping_op("sub", "i32"),
+    "<std::num::Wrapping<i32> as std::ops::Add>::add": _wrapping_op("add", "i32"),
     "std::vec::Vec::<T, A>::is_empty": _is_empty,
     "core::slice::<impl [T]>::is_empty": _is_empty,
     "std::collections::HashMap::<K, V, S, A>::is_empty": _is_empty,
